@@ -25,7 +25,6 @@ inductive Err
   | valueError   -- ValueError (tuple unpacking of the path, urlsplit, empty extension segment)
 deriving DecidableEq, Repr
 
-deriving instance DecidableEq for Except
 
 /-- `'sdc.ctxt.loc'` -/
 def scheme : Bytes := [115, 100, 99, 46, 99, 116, 120, 116, 46, 108, 111, 99]
